@@ -12,7 +12,7 @@ ID = "C09"
 ANCHORS = 'ism._attribution_score,ism._edit_distance_one,ism.saturation_mutagenesis'.split(",")
 MIN_INSTANCES = 10
 # rule families whose findings in this module are derived by an engine (not by comparing spellings): exempt from the rewrite gate
-SEMANTIC_RULES = {"R-TERM", "R-PURE"}
+SEMANTIC_RULES = {"R-PURE"}
 EXPLANATION = (
     "R-AXES: the producer ism._edit_distance_one enumerates mutants with itertools.product; its operand order gives the "
     "flat layout (major -> minor) and extents; every reshape that un-flattens the stacked predictions in "
@@ -335,7 +335,7 @@ def attribution_term(repo):
         return [holds("R-TERM", fi, role, "normal form equals the documented formula", fi.node)]
     if v == "DIFFERENT":
         return [violation("R-TERM", fi, role, "computed term differs from the documented formula", fi.node,
-                          witness={"got": terms.canon(got)[:600], "expected": terms.canon(exp)[:600]})]
+                          semantic=terms.structural_difference(got, exp), witness={"got": terms.canon(got)[:600], "expected": terms.canon(exp)[:600]})]
     return [unrecognised("R-TERM", fi, role, "term contains operators outside the fragment: %s" % sorted(te.opaque)[:3])]
 
 
